@@ -125,8 +125,20 @@ void SelectFdEvent::OnEventCallback(bool is_readable, bool is_writable, bool is_
 
     //! 要先复制一份，因为在for中很可能会改动到d->fd_events，引起迭代器失效问题
     auto tmp = data->fd_events;
-    for (auto event : tmp)
-        event->onEvent(tbox_events);
+    if (!tmp.empty()) {
+        //! 回调中可能会disable或delete同一个fd上排在后面的事件，甚至令data的引用计数归零。
+        //! 所以遍历期间先持有data的一个引用，并且只触发此刻仍在data->fd_events中（即仍处于enable状态）的事件
+        SelectLoop *wp_loop = tmp.front()->wp_loop_;
+        const int fd = tmp.front()->fd_;
+        ++data->ref;
+
+        for (auto event : tmp) {
+            if (std::find(data->fd_events.begin(), data->fd_events.end(), event) != data->fd_events.end())
+                event->onEvent(tbox_events);
+        }
+
+        wp_loop->unrefFdSharedData(fd);  //! 此后data可能已被释放
+    }
 }
 
 void SelectFdEvent::onEvent(short events)
